@@ -4,7 +4,8 @@
 // (every data byte, and directed at the size/flag bytes), and copied by a scan the way
 // Volume.Compact does (from the undamaged file and from a file with one byte altered).
 // raw.go: hand-framed records with arbitrary bodies; volume.go: the same through a real
-// storage.Volume with Volume.Compact + CommitCompact.
+// storage.Volume with Volume.Compact + CommitCompact; stream.go: the other record writers and
+// readers (Volume.StreamWrite / StreamRead, WriteNeedleBlob) on a real storage.Volume.
 package main
 
 import (
@@ -562,7 +563,7 @@ func runCase(out *hx.Out, r *hx.Rng, version needle.Version, prefix []byte, need
 		p := int(offs[f.rec]) + f.pos
 		alter(p, f.mask, func() { doCopy(f.rec, p, f.mask) })
 	}
-	term := fmt.Sprintf("{| c_version := %d; c_prefix := %s; c_needles := %s; c_crcs := %s; c_crc_empty := %d; c_crc_extra := %s; c_flips := %s; c_do_scan := %s; c_scan_off := %d; c_recopies := %s; c_tscans := %s; c_raws := []; i_scan_panicked := %s; i_file := %s; i_appends := %s; i_reads := %s; i_scan := %s |}",
+	term := fmt.Sprintf("{| c_version := %d; c_prefix := %s; c_needles := %s; c_crcs := %s; c_crc_empty := %d; c_crc_extra := %s; c_flips := %s; c_do_scan := %s; c_scan_off := %d; c_recopies := %s; c_tscans := %s; c_raws := []; i_scan_panicked := %s; i_file := %s; i_appends := %s; i_reads := %s; i_scan := %s; c_streams := [] |}",
 		version, pk(prefix), hx.List(inTerms), "(["+strings.Join(crcs, "; ")+"]%N : list N)", uint32(needle.NewCRC(nil)),
 		hx.List(extra), hx.List(flipTerms), hx.Bool(doScan), len(prefix), hx.List(copyTerms), hx.List(tscanTerms), hx.Bool(panicked),
 		pk(file), hx.List(appends), hx.List(reads), hx.List(sc.visits))
@@ -604,7 +605,7 @@ func mk(id uint64, cookie uint32, data string, flags byte) *needle.Needle {
 func main() {
 	flag.Set("logtostderr", "true")
 	out := hx.Flags("C02", 300)
-	out.Rule = "each case: a temp file with a prefix (8-byte super block; sometimes none, 16 bytes, or 1..23 unaligned bytes) and 1..5 needles appended by Needle.Append; a running counter (shard*n+i) walks flags(128) x version(2,3); name and mime lengths from {0,1,7,8,9,254,255}; data length 0, 1..16, {1,7,8,9,15,16,17,255,256,257}, 0..300, sometimes 4095..4097; pairs {0,1,2,17,255,256,300}; in shard 0 one needle with 65536+ data bytes and one with 65535 pairs bytes (more in the thorough tier); random cookie/id/last-modified/ttl/pairs/appendAtNs with boundary values; 1 case in 25 violates the writer's contract; every case: ReadData of every record and a whole-file scan; every 3rd case: byte flips on a record with <= 64 data bytes: every data byte (one random bit; all 8 bits in the thorough tier and for one byte; 4 random non-zero masks), the DataSize / flags / NameSize / MimeSize / PairsSize / checksum bytes (mask 1, a random bit, a random mask), the header Size bytes, 4 random positions; every 2nd case: 1-2 scans of the file truncated inside a record (header cut, header only, body only, last byte, random); every 2nd case a scan-based copy (every visited needle re-appended the way VolumeFileScanner4Vacuum does) of the undamaged file; every 3rd case two copies after altering one byte (a data byte; any byte outside the header Size field); every 8th case: hand-framed records (consistent header/length/padding) whose bodies are encodings cut at any length or with a steering byte changed, with a right or a random checksum: ReadData of each (plus wrong size, beyond EOF) and a scan; fixed first cases: 0-1 empty-payload witness, 2 real storage.Volume written, one data bit flipped, Volume.Compact + CommitCompact, read again (finding 1), 3 the same through the copying visitor (version 2), 4 DataSize flips that end in the decoder's run-time panic (ReadData and scan); non-trivial = a ReadData that succeeded with non-empty data; distinct = canonical needle list + flips/cuts/copies"
+	out.Rule = "each case: a temp file with a prefix (8-byte super block; sometimes none, 16 bytes, or 1..23 unaligned bytes) and 1..5 needles appended by Needle.Append; a running counter (shard*n+i) walks flags(128) x version(2,3); name and mime lengths from {0,1,7,8,9,254,255}; data length 0, 1..16, {1,7,8,9,15,16,17,255,256,257}, 0..300, sometimes 4095..4097; pairs {0,1,2,17,255,256,300}; in shard 0 one needle with 65536+ data bytes and one with 65535 pairs bytes (more in the thorough tier); random cookie/id/last-modified/ttl/pairs/appendAtNs with boundary values; 1 case in 25 violates the writer's contract; every case: ReadData of every record and a whole-file scan; every 3rd case: byte flips on a record with <= 64 data bytes: every data byte (one random bit; all 8 bits in the thorough tier and for one byte; 4 random non-zero masks), the DataSize / flags / NameSize / MimeSize / PairsSize / checksum bytes (mask 1, a random bit, a random mask), the header Size bytes, 4 random positions; every 2nd case: 1-2 scans of the file truncated inside a record (header cut, header only, body only, last byte, random); every 2nd case a scan-based copy (every visited needle re-appended the way VolumeFileScanner4Vacuum does) of the undamaged file; every 3rd case two copies after altering one byte (a data byte; any byte outside the header Size field); every 8th case: hand-framed records (consistent header/length/padding) whose bodies are encodings cut at any length or with a steering byte changed, with a right or a random checksum: ReadData of each (plus wrong size, beyond EOF) and a scan; fixed first cases: 0-1 empty-payload witness, 2 real storage.Volume written, one data bit flipped, Volume.Compact + CommitCompact, read again (finding 1), 3 the same through the copying visitor (version 2), 4 DataSize flips that end in the decoder's run-time panic (ReadData and scan), 5 finding 2: a real volume with 'hello' written by Volume.StreamWrite in two pieces, 'world!' written normally and an empty stream write, one data bit flipped: ReadData and Volume.StreamRead; every 8th case (i%8==3): a real version-3 storage.Volume with 2..5 writes, two thirds Volume.StreamWrite (data 0..300 bytes as above; the reader hands them out in one piece / two / three / 1..7-byte pieces / byte by byte; flags byte 0 or random; 1 in 6 with a reader that holds more than dataSize), one third normal writes (Store.WriteVolumeNeedle), then the .dat, every needle map entry, ReadData and Volume.StreamRead of every id, a scan, flips of every data byte of one stream-written record with <= 24 bytes (+ flags and checksum bytes) read by ReadData and StreamRead, and in half of the cases every record copied with ReadNeedleBlob -> WriteNeedleBlob into a second volume and read there; case 8 of shards 0..3: StreamWrite of 32767 / 32768 / 32769 bytes from a reader that hands out everything at once (io.Copy cuts at 32 KiB) and of 65537 bytes from a splitting reader; non-trivial = a ReadData that succeeded with non-empty data; distinct = canonical needle list + flips/cuts/copies"
 	root := hx.NewRng(out.Seed)
 	shard := int(out.Seed % 1000)
 	thorough := out.Tier == "thorough"
@@ -639,13 +640,37 @@ func main() {
 				fixedFlips: []flipRec{{0, 19, 1}, {1, 19, 1}, {2, 19, 1}, {0, 19, 2}, {0, 16, 128}},
 				fixedCopies: []flipRec{{1, 19, 1}, {0, 19, 2}}, canon: "directed-decoder-panic"})
 			continue
-		case shard == 0 && i == 5:
+		case i == 5:
+			// known finding 2: id 1 "hello" written through Volume.StreamWrite in two pieces, id 2 "world!"
+			// written normally; lowest bit of 'h' flipped: ReadData reports the CRC error, StreamRead
+			// hands out "iello"
+			a := streamWrite{stream: true, n: &needle.Needle{Id: 1, Cookie: 0x1234}, data: []byte("hello"), dataSize: 5, pieces: []int{2}}
+			b := streamWrite{n: mk(2, 0x5678, "world!", 0)}
+			c := streamWrite{stream: true, n: &needle.Needle{Id: 3, Cookie: 0x9abc}, data: nil, dataSize: 0}
+			runStreamCase(out, r, []streamWrite{a, b, c}, streamOpts{kind: "witness-stream-read-unchecked", canon: "witness-stream-read-unchecked",
+				scan: true, copy: true, flips: []flipRec{{0, 20, 1}, {1, 20, 1}}})
+			continue
+		case shard < 4 && i == 8:
+			// sizes around io.Copy's 32 KiB buffer, the reader hands everything out at once (shards 0-2);
+			// 64 KiB + 1 through a reader that cuts at odd places (shard 3)
+			size := []int{32767, 32768, 32769, 65537}[shard]
+			w := streamWrite{stream: true, n: &needle.Needle{Id: 1, Cookie: types.Cookie(uint32(r.Next()))}, data: r.Bytes(size), dataSize: size}
+			if shard == 3 {
+				w.pieces = []int{1000, 31768, 1, 20000}
+			}
+			small := streamWrite{stream: true, n: &needle.Needle{Id: 2, Cookie: 7}, data: r.Bytes(9), dataSize: 9, pieces: []int{4}}
+			runStreamCase(out, r, []streamWrite{w, small}, streamOpts{kind: "stream-write-32k"})
+			continue
+		case i%8 == 3:
+			genStreamCase(out, r, (shard*out.N+i)*3)
+			continue
+		case shard == 0 && i == 6:
 			n := genNeedle(r, 3, false, false, out)
 			n.Data = r.Bytes(65536 + r.Intn(9))
 			n.Checksum = needle.NewCRC(n.Data)
 			runCase(out, r, needle.Version3, sb, []*needle.Needle{n}, caseOpts{kind: "big-data-64k", pick: -1, tscans: 1})
 			continue
-		case shard == 0 && i == 6:
+		case shard == 0 && i == 7:
 			n := genNeedle(r, 0x20|0x02, false, false, out)
 			n.Data = r.Bytes(9)
 			n.Checksum = needle.NewCRC(n.Data)
